@@ -1,4 +1,5 @@
 import GcArena.Proofs.LogRun
+import GcArena.Proofs.PtrRefine
 /-!
 # C04 — Every value is destructed exactly once and all memory is returned
 
@@ -120,6 +121,53 @@ theorem nothing_unaccounted (n : Nat) (ops : List Op) (i : Nat)
   cases hg : ((Arena.new n).run ops).ctx.heap.get i with
   | some o => exact Or.inl ⟨o, rfl⟩
   | none => exact Or.inr ((linv_run n ops).goneFreed i hi hg)
+
+/-! ### The pointer surgery on the intrusive `all` list implements the lists of the model
+
+`PList` (Model/PtrList.lean) is the `next` field of every header plus `Context::{all, sweep,
+sweep_prev}`, with the statements of `link`, the `Mark → Sweep` switch, `sweep_one` and `DropAll`
+that touch them.  `Rep p pre rest` says that following `next` from `all` yields `pre ++ rest`
+(each object once), from `sweep` yields `rest`, and `sweep_prev` is the last object of `pre`.
+So no object ever drops off the list unreleased (the block of seeded change `C04-weak-sweep-prev`),
+and nothing on the list points at a released block. -/
+
+/-- Allocation in any phase — also mid-sweep, also when `sweep_prev` is `None`. -/
+theorem list_surgery_link {p : PList} {c : Ctx} {root temps} (hinv : CInv c root temps)
+    (h : Rep p c.pre c.rest) (o : Obj) :
+    Rep (p.link (c.link o).2) (c.link o).1.pre (c.link o).1.rest :=
+  link_refines hinv h o
+
+/-- The `Mark → Sweep` switch. -/
+theorem list_surgery_enter_sweep {p : PList} {pre : List Nat} (h : Rep p pre []) (hs : p.sweeping = false) :
+    Rep p.enterSweep [] pre := h.enterSweep hs
+
+/-- One `sweep_one` over an object of any colour, wherever the cursor and `sweep_prev` are. -/
+theorem list_surgery_sweep {p : PList} {c : Ctx} {root temps} (hinv : CInv c root temps)
+    (hp : c.phase = .sweep) (hs : p.sweeping = true) (h : Rep p c.pre c.rest) (s : Nat) (r : List Nat)
+    (hr : c.rest = s :: r) :
+    Rep (p.sweepOne c.isWhite).1 c.sweepOne.1.pre c.sweepOne.1.rest :=
+  sweepOne_refines hinv hp hs h s r hr
+
+/-- The end of the sweep: `sweep_prev` is reset, the list is whole. -/
+theorem list_surgery_end_sweep {p : PList} {pre : List Nat} (h : Rep p pre []) (hs : p.sweeping = true)
+    (remove : Nat → Bool) : Rep (p.sweepOne remove).1.endSweep pre [] := (h.endSweep hs remove).2
+
+/-- After any of these steps no `next` field of an object on the list points outside the list —
+    in particular not at a block `sweep_one` has just released. -/
+theorem no_dangling_next {p : PList} {pre rest : List Nat} (h : Rep p pre rest) (i : Nat)
+    (hi : i ∈ pre ++ rest) (t : Nat) (ht : p.next i = some t) : t ∈ pre ++ rest :=
+  h.chain.next_mem i hi t ht
+
+/-- `DropAll` (arena drop, in any phase) visits exactly the objects on the list, each once. -/
+theorem drop_visits_all {p : PList} {pre rest : List Nat} (h : Rep p pre rest) :
+    PList.walk p.next ((pre ++ rest).length + 1) p.all = pre ++ rest := h.walk
+
+/-- Non-vacuity: three allocations, sweep started, middle object unlinked behind a kept one. -/
+example :
+    let p := (((PList.empty.link 0).link 1).link 2).enterSweep
+    let p1 := (p.sweepOne (fun i => i == 1)).1      -- 2 kept: sweep_prev = 2
+    let p2 := (p1.sweepOne (fun i => i == 1)).1     -- 1 unlinked through sweep_prev
+    PList.walk p2.next 4 p2.all = [2, 0] ∧ p2.sweep = some 0 ∧ p2.sweepPrev = some 2 := by decide
 
 /-! ### Non-vacuity: dropping mid-sweep with a shell, a kept object and a condemned one -/
 
